@@ -290,6 +290,104 @@ def validator_orders(ctx, conf):
             return
 
 
+def cross_thread_reuse(ctx):
+    """the earlier, partially consumed generator was driven by ANOTHER thread that is still alive; the tokenizer is then used
+    from this thread.  A watchdog thread runs the second use so that a hang is a verdict, not a stuck check."""
+    import threading
+
+    rng = ctx.rng("threads")
+    for i in range(12):
+        params = G.param_tuples(3)[rng.randrange(56)]
+        v1 = G.structured_random(rng, params, 12) + (1,) * params[1]
+        v2 = G.structured_random(rng, params, 12)
+        kind = rng.choice(("tuple", "char", "bytes"))
+        frames1, validator = tok.FRAME_KINDS[kind](v1)
+        frames2, _ = tok.FRAME_KINDS[kind](v2)
+        fresh = tok.spans(tok.deliver(tok.make_tokenizer(validator, params), tok.CountingSource(frames2), "list"))
+        tk = tok.make_tokenizer(validator, params)
+        started, release = threading.Event(), threading.Event()
+
+        def earlier():
+            g = tk.tokenize(tok.CountingSource(frames1), generator=True)
+            try:
+                next(g)
+            except StopIteration:
+                pass
+            started.set()
+            release.wait(20)  # stays alive, generator suspended
+
+        t1 = threading.Thread(target=earlier, daemon=True)
+        t1.start()
+        started.wait(10)
+        out = {}
+
+        def later():
+            try:
+                out["tokens"] = tok.spans(tok.deliver(tk, tok.CountingSource(frames2), ("list", "generator", "callback")[i % 3]))
+            except Exception as exc:
+                out["exc"] = repr(exc)[:200]
+
+        t2 = threading.Thread(target=later, daemon=True)
+        t2.start()
+        t2.join(10)
+        hung = t2.is_alive()
+        release.set()
+        t1.join(10)
+        case = {"v1": "".join("A" if x else "a" for x in v1), "v2": "".join("A" if x else "a" for x in v2), "params": list(params), "kind": kind,
+                "use": "partial-suspended-in-another-live-thread"}
+        ctx.case(repr(case), bool(fresh))
+        ctx.count("cross_thread_reuses")
+        if hung:
+            ctx.violation("reused-tokenizer-blocks-when-earlier-generator-lives-in-another-thread", {"case": case})
+        elif "exc" in out:
+            ctx.violation("exception:" + out["exc"].split("(")[0], {"case": case, "exception": out["exc"]})
+        elif out.get("tokens") != fresh:
+            ctx.violation("reused-tokenizer-shifts-token-after-partial-use", {"case": case, "second_use": out.get("tokens"), "fresh": fresh})
+
+
+def checksum_colliding_windows(ctx):
+    """two windows with the same CRC-32 and opposite verdicts (birthday search): a verdict cached under a checksum of the
+    window would be wrong for the second one."""
+    import zlib
+
+    rng = ctx.rng("crc")
+    width, channels, thr = 2, 1, 40.0
+    n = 8
+    loud, quiet = {}, {}
+    pair = None
+    for _ in range(400000):
+        lw = struct_pack(rng, n, 2000, 30000)
+        qw = struct_pack(rng, n, 0, 20)
+        cl, cq = zlib.crc32(lw), zlib.crc32(qw)
+        loud[cl] = lw
+        quiet[cq] = qw
+        if cl in quiet:
+            pair = (lw, quiet[cl])
+            break
+        if cq in loud:
+            pair = (loud[cq], qw)
+            break
+    if pair is None:
+        ctx.note("no CRC-32 colliding loud/quiet pair found within the search budget")
+        return
+    lw, qw = pair
+    for order in ((lw, qw), (qw, lw)):
+        v = AudioEnergyValidator(thr, width, channels)
+        got = [bool(v.is_valid(w)) for w in order] + [bool(v.is_valid(w)) for w in order]
+        exp = [w is lw for w in order] * 2
+        ctx.count("checksum_colliding_windows_judged", 4)
+        ctx.case(("crc-windows", lw.hex(), qw.hex(), order[0] is lw), True)
+        if got != exp:
+            ctx.violation("validator-verdict-depends-on-history", {"case": {"width": width, "channels": channels, "thr": thr, "loud": lw.hex(), "quiet": qw.hex(),
+                                                                           "same_crc32": True}, "got": got, "expected": exp})
+
+
+def struct_pack(rng, n, lo, hi):
+    import struct
+
+    return struct.pack("<%dh" % n, *[rng.randint(lo, hi) * rng.choice((-1, 1)) for _ in range(n)])
+
+
 def buffer_reopen(ctx):
     rng = ctx.rng("buffer")
     for i in range(300):
@@ -324,6 +422,10 @@ def run_shard(ctx):
     conf = TIERS[ctx.tier]
     if ctx.shard == 0:
         buffer_reopen(ctx)
+    if ctx.shard == 1:
+        cross_thread_reuse(ctx)
+    if ctx.shard == 2:
+        checksum_colliding_windows(ctx)
     validator_orders(ctx, conf)
     repeated_split(ctx, conf)
     random_pairs(ctx, conf)
@@ -342,7 +444,7 @@ def replay(ctx, case):
 
 def inconclusive(merged, tier):
     c = merged["counters"]
-    need = ["reuse_pairs", "exhaustive_pairs", "repeated_split_cases", "repeated_splits_compared", "validator_verdicts_compared", "refilled_window_objects_checked",
+    need = ["reuse_pairs", "exhaustive_pairs", "repeated_split_cases", "repeated_splits_compared", "validator_verdicts_compared", "refilled_window_objects_checked", "cross_thread_reuses", "checksum_colliding_windows_judged",
             "buffer_reopen_cases"] + ["use_" + u for u in USES]
     return [f"monitor never observed {k}" for k in need if c.get(k, 0) == 0]
 
